@@ -118,6 +118,7 @@ def valid (lenient : Bool) : S → J → Bool
   | .nullable s, j => j.isNull || valid lenient s j
   | .strNum _, j => match j with | .str _ => true | _ => false        -- `format` is an annotation: any string is valid
   | .strFloat _, j => match j with | .str _ => true | _ => false
+  | .strBytes, j => match j with | .str _ => true | _ => false
   | .obj ps addl, j => match j with
     | .obj kvs => validProps lenient ps kvs && validAddl lenient addl (restOf ps.names kvs)
     | _ => false
@@ -151,6 +152,7 @@ def same : S → J → J → Bool
   | .nullable s, a, b => if a.isNull then b.isNull else (!b.isNull && same s a b)
   | .strNum _, a, b => a.scalarEq b
   | .strFloat _, a, b => a.scalarEq b
+  | .strBytes, a, b => a.scalarEq b
   | .obj ps addl, a, b => match a, b with
     | .obj xs, .obj ys =>
       sameProps ps xs ys && sameAddl addl (restOf ps.names xs) ys &&
@@ -192,7 +194,7 @@ def judge (s : S) (t : Ty) (doc : J) : Bool := judgeRun s doc (rt t doc)
 inductive Known
   | nonStringEnum | enumAliasMerged | renamedDup | numericWidth
   | requiredNullDropped | requiredNullableMissing | containerDefault | structFromSeq
-  | stringNumericFormat
+  | stringNumericFormat | stringByteFormat
   deriving DecidableEq, Repr
 
 def Known.name : Known → String
@@ -200,7 +202,7 @@ def Known.name : Known → String
   | .renamedDup => "KnownRenamedDup" | .numericWidth => "KnownNumericWidth"
   | .requiredNullDropped => "KnownRequiredNullDropped" | .requiredNullableMissing => "KnownRequiredNullableMissing"
   | .containerDefault => "KnownContainerDefault" | .structFromSeq => "KnownStructFromSeq"
-  | .stringNumericFormat => "KnownStringNumericFormat"
+  | .stringNumericFormat => "KnownStringNumericFormat" | .stringByteFormat => "KnownStringByteFormat"
 
 def isStr : J → Bool
   | .str _ => true
@@ -234,6 +236,8 @@ def classes (fname : Str → Str) (vname : J → Str) : S → J → List Known
   -- the member is a Rust number: every STRING (all of them valid) is refused, every in-range NUMBER (none of them valid) is read
   | .strNum _, j => match j with | .str _ => [.stringNumericFormat] | .num _ _ => [.stringNumericFormat] | _ => []
   | .strFloat _, j => match j with | .str _ => [.stringNumericFormat] | .num _ _ => [.stringNumericFormat] | _ => []
+  -- the member is a `Vec<u8>`: every (base64) string is refused, an array of small integers is read
+  | .strBytes, j => match j with | .str _ => [.stringByteFormat] | .arr _ => [.stringByteFormat] | _ => []
   | .obj ps addl, j => match j with
     | .obj kvs => classesProps fname vname ps [] ps.anyDefault kvs ++ classesAddl fname vname addl (restOf ps.names kvs)
     | .arr _ => (match addl with | .typed _ => [] | _ => [.structFromSeq])
